@@ -159,6 +159,11 @@ fn run_steps(ctx: TestContext, n: &BuildNode, root: usize) {
             Step::DownloadSbom => {
                 ctx.as_ref().expect("context").download_sbom_files(|_files| {});
             }
+            Step::NestedBuild { id, node } => {
+                // a second, independent build while this one's context is alive
+                let cfg = build_config(node, *id);
+                TestRunner::default().build(cfg, |ctx2| run_steps(ctx2, node, *id));
+            }
             Step::Rebuild(next) => {
                 let cfg = build_config(next, root);
                 ctx.take().expect("context").rebuild(cfg, |ctx2| run_steps(ctx2, next, root));
